@@ -31,7 +31,7 @@ var R = hx.NewRecorder("C08", "cases = attacker catalogue x GMSSL suite x client
 func TestMain(m *testing.M) {
 	for _, k := range []string{"sign_cert_wrong_key", "enc_cert_wrong_key", "untrusted", "expired", "future", "wrongname", "enc_expired", "rsa_sign_cert", "rsa_enc_cert", "swapped", "client_wrong_key", "client_untrusted", "client_expired",
 		"ske_omitted", "ske_other_key", "ske_other_randoms", "ske_other_enccert", "ske_garbage", "cv_omitted", "cv_other_key", "cv_replayed", "cv_chain_confusion", "ske_sig_not_der", "cv_sig_not_der", "finished_wrong",
-		"mitm_byte", "mitm_suites", "mitm_ske_replay", "mitm_cke_replay", "mitm_cert_swap", "mitm_cert_attacker", "baseline", "tls_server_name", "enc_cert_twice", "sign_cert_twice", "sign_cert_enc_key"} {
+		"mitm_byte", "mitm_suites", "mitm_ske_replay", "mitm_cke_replay", "mitm_cert_swap", "mitm_cert_attacker", "baseline", "tls_server_name", "enc_cert_twice", "sign_cert_twice", "sign_cert_enc_key", "ecdhe_ske_other_key"} {
 		R.Require("attack:" + k)
 	}
 	R.Require("suite:e013", "suite:e053", "skipverify")
@@ -200,7 +200,7 @@ func TestC08_ScriptedAttackers(t *testing.T) {
 	hx.Check(t, hx.N(300, 4000), func(t *rapid.T) {
 		n++
 		suite := rapid.SampledFrom(suites).Draw(t, "suite")
-		attack := rapid.SampledFrom([]string{"baseline", "ske_omitted", "ske_other_key", "ske_other_randoms", "ske_other_enccert", "ske_garbage", "finished_wrong", "cv_omitted", "cv_other_key", "cv_replayed", "cv_chain_confusion", "baseline_client", "ske_sig_not_der", "cv_sig_not_der"}).Draw(t, "attack")
+		attack := rapid.SampledFrom([]string{"baseline", "ske_omitted", "ske_other_key", "ske_other_randoms", "ske_other_enccert", "ske_garbage", "finished_wrong", "cv_omitted", "cv_other_key", "cv_replayed", "cv_chain_confusion", "baseline_client", "ske_sig_not_der", "cv_sig_not_der", "ecdhe_ske_other_key"}).Draw(t, "attack")
 		skip := gen.OneIn(t, "skipverify", 3)
 		seed := fmt.Sprint("k", n)
 		cl := []string{fmt.Sprintf("suite:%x", suite)}
@@ -210,6 +210,22 @@ func TestC08_ScriptedAttackers(t *testing.T) {
 		var r *tlsx.ScriptedResult
 		victimIsClient := true
 		switch attack {
+		case "ecdhe_ske_other_key":
+			// the attacker replays the victim server's certificates, selects an ECDHE-SM2 suite (offered by default) and
+			// signs its ephemeral parameters with a key of its own: the client must stop at that signature
+			cc := tlsx.GMClient(p, "c"+seed)
+			cc.InsecureSkipVerify = skip
+			e := &rgmssl.ECDHEOpts{Suite: map[uint16]uint16{tlsx.GMECCSM4CBCSM3: 0xe011, tlsx.GMECCSM4GCMSM3: 0xe051}[suite], CurveID: rapid.SampledFrom([]uint16{29, 23, 41}).Draw(t, "curve"),
+				SignD: rapid.SampledFrom([]*big.Int{p.SrvSignBad.SM2D, p.SrvEnc.SM2D, big.NewInt(12345)}).Draw(t, "attackerKey")}
+			r = tlsx.RunAgainstScriptedServer(cc, rgmssl.ServerOpts{ID: p.ServerIdentity(), ECDHE: e}, nil, seed, []byte("victim secret"))
+			if r.GM.Panic != nil {
+				t.Fatalf("victim panicked: %s", r.GM.Panic)
+			}
+			if r.GM.HSErr == nil || r.Peer.AfterFlight == "ClientKeyExchange" {
+				t.Fatalf("the client did not stop at an ECDHE-SM2 ServerKeyExchange signed by a key that is not the certified signing key (hs=%v, then sent: %s)", r.GM.HSErr, r.Peer.AfterFlight)
+			}
+			R.Case(true, hx.HashKey("scr", attack, suite, skip, seed), append(cl, "attack:"+attack)...)
+			return
 		case "baseline", "ske_omitted", "ske_other_key", "ske_other_randoms", "ske_other_enccert", "ske_garbage", "finished_wrong", "ske_sig_not_der":
 			cc := tlsx.GMClient(p, "c"+seed)
 			cc.CipherSuites = []uint16{suite}
